@@ -231,8 +231,8 @@ def rule_taint(chk, repo):
                    key=f"{f.qual}::unresolved-exception-regex", fn=f.qual)
 
 
-def rule_pool_shape(chk, repo):
-    chk.rule('C10.c', 'shape of create_unique_peptide_pool: X strip, first-stop cut, I/L pairing, cds_start_nf threading', 6)
+def rule_pool_shape(chk, repo, rid='C10.c'):
+    chk.rule(rid, 'shape of create_unique_peptide_pool: X strip, first-stop cut, I/L pairing, cds_start_nf threading', 6)
     f = repo.func(POOL)
     chk.uses(f)
     cfg = CFG(f.node)
@@ -271,7 +271,7 @@ def rule_pool_shape(chk, repo):
     x_strip = [st for st in pre if (norm_stmt(st) == xs_assign) or
                (isinstance(st, ast.If) and not st.orelse and len(st.body) == 1 and norm_stmt(st.body[0]) == xs_assign
                 and cond_lits(st) == {sem.lit(f"{P}.seq.startswith('X')")})]
-    chk.ob('C10.c', 'leading X stripped before digestion', f.where, len(x_strip) == 1, "leading-X strip does not precede the digest", key=POOL + '::x-strip', fn=f.qual)
+    chk.ob(rid, 'leading X stripped before digestion', f.where, len(x_strip) == 1, "leading-X strip does not precede the digest", key=POOL + '::x-strip', fn=f.qual)
     # first stop cut
     stop_tests = [{sem.lit(f"{P}.seq.find('*') > -1")}, {sem.lit(f"{P}.seq.find('*') != -1")}, {sem.lit(f"{P}.seq.find('*') >= 0")},
                   {sem.lit(f"'*' in {P}.seq")}]
@@ -283,10 +283,10 @@ def rule_pool_shape(chk, repo):
             return False
         return ex(ctx, st.value.slice.upper, ('find',)) == f"{P}.seq.find('*')"
     cuts = [st for st in pre if isinstance(st, ast.If) and not st.orelse and len(st.body) == 1 and is_cut(st.body[0], st) and cond_lits(st) in stop_tests]
-    chk.ob('C10.c', 'sequence cut at the first stop before digestion', f.where, len(cuts) == 1,
+    chk.ob(rid, 'sequence cut at the first stop before digestion', f.where, len(cuts) == 1,
            "the proteome sequence is not cut at the first '*' before the digest", key=POOL + '::stop-cut', fn=f.qual)
     other_w = [w for w in G.writes_in(pre) if w[0] == P and not any(any(w[2] is y for y in ast.walk(x)) for x in x_strip + cuts)]
-    chk.ob('C10.c', 'the record is not otherwise altered before the digest', repo.loc(f, other_w[0][2]) if other_w else f.where, not other_w,
+    chk.ob(rid, 'the record is not otherwise altered before the digest', repo.loc(f, other_w[0][2]) if other_w else f.where, not other_w,
            f"the proteome entry is modified before it is digested: {norm_stmt(other_w[0][2]) if other_w else ''}", key=POOL + '::pre-digest-writes', fn=f.qual)
     # cds_start_nf from the annotation, threaded
     k = kwarg(calls[0], 'cds_start_nf')
@@ -316,16 +316,16 @@ def rule_pool_shape(chk, repo):
     binds = [l_ for b_ in binds for l_ in leaves(b_)]
     want_b = {'False', f'anno.transcripts[{P}.transcript_id].is_cds_start_nf()'}
     ok = k is not None and set(binds) == want_b
-    chk.ob('C10.c', 'cds_start_nf read from the annotation and passed to enzymatic_cleave', repo.loc(f, calls[0]), ok,
+    chk.ob(rid, 'cds_start_nf read from the annotation and passed to enzymatic_cleave', repo.loc(f, calls[0]), ok,
            f"cds_start_nf bindings {binds}, passed {unparse(k) if k is not None else None}", key=POOL + '::cds_start_nf', fn=f.qual)
     # six parameters name-to-name
     for p in SIX[2:] + ['rule', 'exception']:
         v = kwarg(calls[0], p)
-        chk.ob('C10.c', f'enzymatic_cleave({p}={p})', repo.loc(f, calls[0]), v is not None and unparse(v) == p,
+        chk.ob(rid, f'enzymatic_cleave({p}={p})', repo.loc(f, calls[0]), v is not None and unparse(v) == p,
                f"enzymatic_cleave receives {p}={unparse(v) if v is not None else 'missing'}", key=POOL + f'::arg::{p}', fn=f.qual)
         w = [x for x in G.writes_in(f.node.body) if x[0] == p]
         if w:
-            chk.ob('C10.c', f'{p} not rebound in the pool builder', repo.loc(f, w[0][2]), False, f"{p} is rebound: {norm_stmt(w[0][2])}",
+            chk.ob(rid, f'{p} not rebound in the pool builder', repo.loc(f, w[0][2]), False, f"{p} is rebound: {norm_stmt(w[0][2])}",
                    key=POOL + f'::rebinding::{p}', fn=f.qual)
     # I/L pairing
     rets = [n for n in walk_no_nested(f.node) if isinstance(n, ast.Return)]
@@ -340,12 +340,12 @@ def rule_pool_shape(chk, repo):
         all_adds = [c for c in G.find_calls(f.node, 'add') if unparse(c.func.value) == POOLN]
         texts = sorted(ex(st, st.value.args[0], ('str', 'replace')) for st in adds)
         ok = len(adds) == 2 and len(all_adds) == 2 and texts == sorted([f'str({v}.seq)', f"str({v}.seq).replace('I', 'L')"])
-    chk.ob('C10.c', 'each peptide is added together with its I->L image', f.where, ok,
+    chk.ob(rid, 'each peptide is added together with its I->L image', f.where, ok,
            f"pool.add calls {texts} are not the peptide and its I->L image added for every digested peptide", key=POOL + '::il-pairing', fn=f.qual)
     # returns the pool
     inits = [n for n in f.node.body if (isinstance(n, ast.Assign) and unparse(n.targets[0]) == POOLN) or
              (isinstance(n, ast.AnnAssign) and n.value is not None and unparse(n.target) == POOLN)]
-    chk.ob('C10.c', 'returns the assembled pool', f.where, len(rets) == 1 and len(inits) == 1 and unparse(inits[0].value) == 'set()', 'pool not returned', key=POOL + '::return', fn=f.qual)
+    chk.ob(rid, 'returns the assembled pool', f.where, len(rets) == 1 and len(inits) == 1 and unparse(inits[0].value) == 'set()', 'pool not returned', key=POOL + '::return', fn=f.qual)
     # every protein is digested: loop advances only via next(it) after adding, or `continue` after trimming at X
     ok = isinstance(ploop, ast.While) and unparse(ploop.test) == P
     if ok:
@@ -367,7 +367,7 @@ def rule_pool_shape(chk, repo):
     elif isinstance(ploop, ast.For):
         # `for P in self.values()`: the advance is the loop itself; no early exit, the digest is not skipped
         ok = not sem.own_exits(ploop) and not any(isinstance(x, ast.Continue) for st in pre for x in ast.walk(st))
-    chk.ob('C10.c', 'every proteome entry is digested (advance only after its peptides were added)', f.where, ok,
+    chk.ob(rid, 'every proteome entry is digested (advance only after its peptides were added)', f.where, ok,
            'a path advances to the next protein without adding the peptides of the current one', key=POOL + '::every-protein', fn=f.qual)
 
 
